@@ -18,7 +18,7 @@ RULE = (
     "case = lifecycle schedule (see C05) with up to 4 close causes in any order/multiplicity: DisconnectRequest (alone, "
     "repeated, followed by other frames), disconnect(), force disconnect, EOF, reset, write failure on the next write "
     "(incl. on the DisconnectResponse), ping timeout (device silent), garbage / undecodable payload / bad MAC; at "
-    "every lifecycle stage. Enumerated: all ordered pairs of 9 causes at the same instant and one tick apart on an "
+    "every lifecycle stage. Enumerated: all ordered pairs of 10 causes at the same instant and one tick apart on an "
     "established session, both framings. Oracle: on_stop called exactly once iff CONNECTED was reached; argument "
     "true iff a graceful initiation precedes the CLOSED write in the trace. non-trivial = session reached CONNECTED "
     "and >= 2 close causes occurred. Kind 'chain': 2-4 consecutive sessions on one client, each with its own callback, the "
@@ -29,14 +29,14 @@ ASSUMPTIONS = [
     "(a frame pushed before the client's hello was sent is not a protocol request)",
     "a disconnect() issued while the client holds no connection is a no-op and counts for nothing",
 ]
-EXHAUSTIVE_NOTE = "ordered pairs of 9 close causes x {same instant, 1 tick apart, 1 latency apart} x {plaintext, noise}"
+EXHAUSTIVE_NOTE = "ordered pairs of 10 close causes x {same instant, 1 tick apart, 1 latency apart} x {plaintext, noise}"
 BUDGET = {"quick": {"examples": 700, "shards": 4}, "thorough": {"examples": 25000, "shards": 16}}
 FLOORS = {"two_or_more_close_causes": 0.05, "reached_connected": 0.4}
 
 PAIR_CAUSES = [
     {"do": "disconnect"}, {"do": "force"}, {"do": "eof"}, {"do": "reset"},
     {"do": "chunk", "frames": ["discreq"]}, {"do": "chunk", "frames": ["garbage"]}, {"do": "chunk", "frames": ["badproto"]},
-    {"do": "writefail_raise"}, {"do": "writefail_fatal"},
+    {"do": "writefail_raise"}, {"do": "writefail_fatal"}, {"do": "writefail_raise_rt"},
 ]
 
 
